@@ -52,6 +52,14 @@ type Input struct {
 	Kind   string `json:"kind"`   // what the generator did
 	Stream string `json:"stream"` // normal | kf-number-precision | kf-empty-enum
 	NoCoq  bool   `json:"no_coq,omitempty"`
+	// calls made earlier in the same process that a replay must repeat first (history cases)
+	Prefix []Call `json:"prefix,omitempty"`
+}
+
+type Call struct {
+	Mode   int    `json:"mode"`
+	Schema string `json:"schema"`
+	Data   string `json:"data"`
 }
 
 func classify(err error) int {
@@ -567,7 +575,7 @@ func (g *gen) writeShards() error {
 func Run(cfg *common.Config) (*common.Report, error) {
 	rep := common.NewReport("C18")
 	rep.Correspondence = "Schema.Run.smismatches: validate_data / processor_validate_data (Schema/Model.v: compile_root + validate) vs json.Validator.ValidateData / processor.Processor.ValidateData (outcome class: valid, invalid, data syntax error, data not an object, schema error, other error, no validator)"
-	rep.Rule = "generated schemas over type/properties/required/additionalProperties/items/additionalItems/prefixItems/enum/const/bounds/multipleOf/lengths/pattern/allOf/anyOf/oneOf/not/$ref (draft-07 and 2020-12 via $schema, or no $schema), 2 instances conforming by construction and up to 4 instances with one injected violation each; schemas with one injected defect; non-object / null / malformed data; malformed schema text; facade calls. distinct = distinct (mode, schema text, data text); every case is non-trivial (the schema has at least one constraining keyword or the input is an error case)."
+	rep.Rule = "generated schemas over type/properties/required/additionalProperties/items/additionalItems/prefixItems/enum/const/bounds/multipleOf/lengths/pattern/allOf/anyOf/oneOf/not/$ref (draft-07 and 2020-12 via $schema, or no $schema), 2 instances conforming by construction and up to 4 instances with one injected violation each; schemas with one injected defect; non-object / null / malformed data; malformed schema text; facade calls; histories of calls in one process with schema revisions sharing one $id (each verdict must equal the fresh verdict for that text). distinct = distinct (mode, schema text, data text); every case is non-trivial (the schema has at least one constraining keyword or the input is an error case)."
 	g := &gen{cfg: cfg, rep: rep}
 	if cfg.Replay != "" {
 		return replay(cfg, g)
@@ -579,6 +587,7 @@ func Run(cfg *common.Config) (*common.Report, error) {
 	g.precisionStream()
 	g.emptyEnumStream()
 	g.suiteStream()
+	g.historyStream(scs, cfg.Pick(12, 300))
 	for i, in := range g.cases {
 		if i%83 == 0 {
 			rep.Sample(map[string]any{"input": in, "observed": className[g.obs[i]]})
@@ -606,6 +615,9 @@ func replay(cfg *common.Config, g *gen) (*common.Report, error) {
 		return nil, err
 	}
 	in := rf.Input
+	for _, c := range in.Prefix {
+		runImpl(&Input{Mode: c.Mode, Schema: c.Schema, Data: c.Data})
+	}
 	cls := g.add(&in)
 	g.rep.Sample(map[string]any{"input": in, "observed": className[cls]})
 	fmt.Printf("replay: mode=%d kind=%s schema=%s data=%s -> %s (expected %s)\n", in.Mode, in.Kind, in.Schema, in.Data, className[cls], className[in.Expect])
